@@ -550,6 +550,27 @@ def lifecycle():
     rq2 = strip_comments(src("core/src/socket/patterns/ready_pipe_queue.rs"))
     emit_nat("queueCloseWakesParkedPop", 1 if re.search(r"pub fn close\(&self\) \{[^}]*?self\.closed\.store\(true, Ordering::Release\);\s*self\.close_notify\.notify_waiters\(\);", rq2, re.S)
              and re.search(r"_ = &mut closed => return Err", rq2) else 0)
+    # parked senders: what Stop does about a send() waiting in the load balancer for its first peer
+    lb = strip_comments(src("core/src/socket/patterns/load_balancer.rs"))
+    mdeact = re.search(r"pub fn deactivate\(&self\) \{(.*?)\n  \}", lb, re.S)
+    deact = mdeact.group(1) if mdeact else ""
+    emit_nat("balancerDeactivateWakesAll", 1 if re.search(r"\.deactivated\s*\.store\(true", deact) and "notify_waiters.notify_waiters()" in deact
+             and "notify_one" not in deact else 0)
+    mwait = re.search(r"pub async fn wait_for_connection\(&self\).*?\n  \}", lb, re.S)
+    wait = mwait.group(0) if mwait else ""
+    emit_nat("balancerWaitChecksFlagAfterRegistering", 1 if re.search(r"notified\.as_mut\(\)\.enable\(\);\s*if self\.deactivated\.load\([^)]*\) \{\s*return Err", wait) else 0)
+    def stop_arm(path):
+        t = strip_comments(src(path))
+        m = re.search(r"Command::Stop => \{(.*?)\n      \}", t, re.S)
+        return m.group(1) if m else ""
+    emit_nat("pushStopDeactivatesBalancer", 1 if "outgoing_orchestrator.deactivate()" in stop_arm("core/src/socket/push_socket.rs") else 0)
+    emit_nat("dealerStopDeactivatesBalancer", 1 if "outgoing_orchestrator.deactivate()" in stop_arm("core/src/socket/dealer_socket.rs") else 0)
+    emit_nat("reqStopDeactivatesBalancer", 1 if "load_balancer.deactivate()" in stop_arm("core/src/socket/req_socket.rs") else 0)
+    emit_nat("orchestratorDeactivateReachesBalancer", 1 if re.search(r"pub fn deactivate\(&self\) \{\s*self\.load_balancer\.deactivate\(\);", strip_comments(src("core/src/socket/patterns/outgoing_orchestrator.rs"))) else 0)
+    # a session that ends takes the unread commands out of its mailbox (they may own pipe ends)
+    actf = strip_comments(src("core/src/sessionx/actor.rs"))
+    mfin = re.search(r"async fn finalize\(mut self.*?\n  \}", actf, re.S)
+    emit_nat("sessionDrainsMailboxAtExit", 1 if mfin and re.search(r"while self\.command_mailbox_receiver\.try_recv\(\)\.is_ok\(\) \{\}", mfin.group(0)) else 0)
     tc = strip_comments(src("core/src/transport/tcp.rs"))
     emit_nat("connecterAbortIsFinal", 1 if re.search(r"Connect aborted: shutdown by system event", src("core/src/transport/tcp.rs")) and 's.contains("shutdown by")' in tc else 0)
     emit_nat("connecterChecksParentRunning", 1 if re.search(r"if !self\.socket_logic\.core\(\)\.is_running\(\) \{\s*last_connect_attempt_error", tc) else 0)
